@@ -242,3 +242,17 @@ PROPS["C14"] = dict(
     check_names={141: "fixed-size hash from wrong-length bytes", 142: "textual utxo reference", 143: "missing script bytes", 144: "native script decode",
                  145: "arithmetic overflow", 146: "Coerce::IntoScript todo!", 149: "other panic site of the model"},
 )
+
+PROPS["C11"] = dict(
+    level="proof", runner="C11",
+    model_files=["Base.v", "Assets.v", "Select.v", "Tir.v", "Reduce.v", "PlutusData.v", "Serde.v"],
+    proof_files=["PlutusData_proofs.v", "Serde_proofs.v"], check_files=["C11_check.v"],
+    theorems=["C11_decode_encode", "C11_wire_roundtrip", "C11_layout_distinguishes_constructors"],
+    partial=["the way back from the data model to the IR (serde-derive's Deserialize) is exercised on the implementation (decode, compare canonical forms, same parameters/queries, same result after identical application: clauses 101-103), not yet modelled; full injectivity of the layout is proved only at constructor level",
+             "'decoding garbage never panics' is a statement about ciborium: observed on the malformed stream (clause 104)"],
+    trusted_base=TB_COMMON + ["serde-derive's layout and ciborium's encoder are re-implemented in Serde.v and compared byte for byte with to_bytes on every case"],
+    assumptions=["integers are i128; lengths below 2^64"],
+    check_names={101: "decode(encode t) has the same canonical form as t", 102: "same reported parameters and queries",
+                 103: "identical application gives the same transaction", 104: "decoding malformed bytes panicked or aborted",
+                 105: "an unknown or retired version was not refused"},
+)
